@@ -150,11 +150,20 @@ def L3_levels(ctx, rid, core, G):
 
 
 # ------------------------------------------------------------------ L4 string content, L5 non-finite numbers
+def string_atomic(ctx, rid, G):
+    """the content of a string literal is taken verbatim: `string` and `string_value` are atomic, in every context (a non-atomic
+    `string` lets pest skip implicit whitespace after the opening quote wherever the enclosing rule is not atomic, e.g. record keys)"""
+    for r in ("string", "string_value"):
+        if r in G.rules:
+            ctx.inst(rid, "grammar#%s-atomic" % r, G.ty(r) in ("atomic", "compound"), "rule %s is %s (must be @ or $: no implicit whitespace inside a string literal)" % (r, G.ty(r)), "blots-core/src/grammar.pest")
+
+
 def L4_strings(ctx, rid, core, G):
     ctx.rule(rid, "the grammar's string rule has no escape sequences and the AST builder takes the text verbatim, so a printer may not rewrite string content (replace / escape) before emitting it, and must choose a delimiter the content does not contain", floor=3)
     sv = G.expr("string_value")
     has_escape = any(x["k"] == "str" and "\\" in x["v"] for x in G.walk(sv))
     ctx.inst(rid, "grammar#string-has-no-escapes", not has_escape, "string_value = (!PEEK ~ ANY)*: no escape alternative: %s" % (not has_escape), "blots-core/src/grammar.pest")
+    string_atomic(ctx, rid, G)
     pf = printer_fns(core)
     helper_counts = {}
     for name, f in sorted(pf.items()):
